@@ -159,7 +159,7 @@ def mk(shape, lens):
 def specs(tier):
     q = tier == "quick"
     out = []
-    for shape, lenss in [((1, 1), [(1, 1), (2, 1)] if q else [(1, 1), (2, 1), (2, 2), (3, 2)]),
+    for shape, lenss in [((1, 1), [(1, 1), (2, 1), (2, 2)] if q else [(1, 1), (2, 1), (2, 2), (3, 2)]),
                          ((2,), [(1, 1)] if q else [(1, 1), (2, 1), (2, 2)]),
                          ((1, 0), [(1,), (2,)] if q else [(1,), (2,), (3,)]),
                          ((2, 1), [(1, 1, 1)] if q else [(1, 1, 1), (2, 1, 1)]),
